@@ -66,7 +66,7 @@ def run(ctx):
 
     if ctx.replay is not None:
         syn = [ctx.replay] if ctx.replay.get("synthetic") else []
-        cfgs = [] if ctx.replay.get("synthetic") else [ctx.replay]
+        cfgs = [] if (ctx.replay.get("synthetic") or "swap_scenario" in ctx.replay) else [ctx.replay]
     else:
         syn = [c for c in ctx.corpus if c.get("synthetic")]
         for _ in range(150 if ctx.quick() else 2000):
@@ -129,6 +129,57 @@ def run(ctx):
         ctx.case(("syn", K, tuple(labels), repr(c["rows"])), nontrivial=vals[2] > 1e-9,
                  sample={"K": K, "T": len(labels), "reported": got, "definition": vals[0], "deviation": vals[2]}
                  if len(ctx.samples) < 3 else None)
+
+    # ---------------- scripted runs that converge right after clusters exchanged windows while keeping their sizes:
+    # the index must be computed for the members of the returned labelling
+    if ctx.replay is None or "swap_scenario" in ctx.replay:
+        import random as pyrandom
+        import warnings
+        from fast_ticc import cluster_label_assignment as cla
+        reps = [ctx.replay["swap_scenario"]] if ctx.replay is not None else list(range(3 if ctx.quick() else 30))
+        for rep in reps:
+            r = pyrandom.Random(ctx.seed * 17 + rep)
+            K = r.choice([2, 3])
+            W = r.choice([1, 2, 3])
+            T = r.randint(60, 110)
+            data = tu.make_series(r, T, 2, regimes=K, seg=(10, 25))
+            npts = T - W + 1
+            base = [(i * K) // npts for i in range(npts)]
+            L1 = list(base)
+            L2 = list(base)
+            # exchange windows pairwise between clusters: sizes unchanged, membership changed
+            for _ in range(r.randint(2, 6)):
+                a, b = r.sample(range(npts), 2)
+                if L2[a] != L2[b]:
+                    L2[a], L2[b] = L2[b], L2[a]
+            if L1 == L2:
+                a = L2.index(0); b = L2.index(1)
+                L2[a], L2[b] = 1, 0
+            o_pred = cla.predict_cluster_labels
+
+            def pred(model, test_data, _o=o_pred, _L1=L1, _L2=L2):
+                out = _o(model, test_data)
+                out.point_labels = list(_L1)      # a labelling with the same cluster sizes ...
+                out.point_labels = list(_L2)      # ... then windows are exchanged between clusters, sizes kept
+                return out
+            res = None
+            with tu.patched(cla, "build_initial_clusters", lambda K_, d, _L1=L1: list(_L1)), \
+                    tu.patched(cla, "predict_cluster_labels", pred), warnings.catch_warnings():
+                warnings.simplefilter("ignore")
+                try:
+                    res = tu.run_single(data, window_size=W, num_clusters=K, label_switching_cost=3.0, min_cluster_size=2,
+                                        iteration_limit=6)
+                except Exception:
+                    ctx.count("swap_scenario_raised")
+            if res is not None:
+                from fast_ticc import data_preparation as dp
+                stacked = dp.stack_training_data(data, W)
+                labels = [int(x) for x in res.point_labels if x >= 0]
+                vals = ch_values(stacked, labels, K)
+                if labels == L2 and vals is not None:
+                    which = judge(ctx, float(res.calinski_harabasz_index), vals, {"swap_scenario": rep})
+                    ctx.count("swap_scenario:" + which)
+            ctx.case(("swap", rep, K, W, T), nontrivial=res is not None)
 
     for cfg in cfgs:
         res, tr, err, series = tu.execute(cfg, capture_kernel=False, record_states=False)
